@@ -1,1 +1,42 @@
-From Emd Require Import Base.Prelude Model.H5 Model.Emd Model.Reader.
+(* C11 -- write never clobbers, overwrite leaves no residue, append to nothing is write.  Statements only.
+   All statements are over the mode tables and the prelude order GENERATED from write.py on every run. *)
+From Emd Require Import Base.Prelude Model.H5 Model.Emd Model.EmdList Generated.Tables Proofs.P11.
+
+Theorem C11_write_mode_never_clobbers :
+  forall c s root tp a, mem (mode a) writemode = true -> emdpath a = None -> s <> Absent ->
+    write_node c s root tp a = (Err EAssert, s).
+Proof. exact write_exists_refused. Qed.
+Print Assumptions C11_write_mode_never_clobbers.
+
+Theorem C11_unknown_mode_rejected_before_anything_is_touched :
+  forall c s root tp a, mem (mode a) allmodes = false -> exists e, write_node c s root tp a = (Err e, s).
+Proof. exact unknown_mode_refused. Qed.
+Print Assumptions C11_unknown_mode_rejected_before_anything_is_touched.
+
+Theorem C11_unknown_mode_rejected_for_lists :
+  forall c s tops items a, mem (mode a) allmodes = false -> exists e, write_list c s tops items a = (Err e, s).
+Proof. exact unknown_mode_refused_list. Qed.
+Print Assumptions C11_unknown_mode_rejected_for_lists.
+
+Theorem C11_overwrite_equals_fresh_save :
+  forall c s root tp a, mem (mode a) overwritemode = true -> emdpath a = None ->
+    write_node c s root tp a = write_node c Absent root tp (with_mode a "w").
+Proof. exact overwrite_is_fresh. Qed.
+Print Assumptions C11_overwrite_equals_fresh_save.
+
+Theorem C11_append_to_nothing_is_write :
+  forall c root tp a, mem (mode a) appendmode = true \/ mem (mode a) appendovermode = true ->
+    write_node c Absent root tp a = write_node c Absent root tp (with_mode a "w").
+Proof. exact append_absent_is_write. Qed.
+Print Assumptions C11_append_to_nothing_is_write.
+
+Theorem C11_emdpath_turns_write_into_append :
+  forall c s root tp a ep, emdpath a = Some ep -> mem (mode a) writemode = true \/ mem (mode a) overwritemode = true ->
+    write_node c s root tp a = write_node c s root tp (with_mode a "a").
+Proof. exact emdpath_turns_write_into_append. Qed.
+Print Assumptions C11_emdpath_turns_write_into_append.
+
+(* non-vacuity: the generated tables are the documented ones and pairwise disjoint *)
+Example C11_tables : allmodes = ["w"; "write"; "o"; "overwrite"; "a"; "+"; "append"; "oa"; "ao"; "o+"; "+o"; "appendover"]
+  /\ mem "w" writemode = true /\ mem "bogus" allmodes = false /\ NoDup allmodes.
+Proof. repeat split; try reflexivity. repeat (constructor; [cbn; intuition discriminate|]). constructor. Qed.
